@@ -183,8 +183,10 @@ pub fn prefix_scope(rep: &mut Report, rng: &mut Rng, thorough: bool) {
     let firsts = [
         "", "^", "$", "\\b", "\\B", "(?<!.)", "(?<![^])", "(?<![\\s\\S])", "(?<!a)", "(?<!^)", "(?<=\\n)", "(?<=^)", "(?<=a|^)", "(?!^)", "(?=a)", "(?=^)", "(?:^|a)", "(^)",
         "(?:(?<!.))", "((?<!.))", "(?<!.|b)", "(?<!\\n)", "(?:^)?", "(?<!.)?", "(?=(?<!.))", "(?<!(?=.))", "(?<!b.)",
+        // a leading group that a later back-reference constrains: the search may not be cut short
+        "(.*)", "(.*?)", "(.+)", "(a*)", "(?:(.*))", "(.*)a",
     ];
-    let bodies = ["a", "ab", "[ab]", "a|b", "(a)", ".", "", "\\w+", "(?:a|ba)", "b*a", "[^a]"];
+    let bodies = ["a", "ab", "[ab]", "a|b", "(a)", ".", "", "\\w+", "(?:a|ba)", "b*a", "[^a]", "=\\1", "a\\1", "\\1", "b\\1$"];
     let flagsets = ["", "m", "s", "ms", "i", "u", "su"];
     let mut hays = short_strings(&["a", "b", "\n"], 4);
     for extra in ["\ra", "a\rb", "\u{2028}a", "b\u{2029}ab", "\r\na", "a\n\nab"] {
@@ -451,6 +453,114 @@ pub fn class_boundary_scope(rep: &mut Report, rng: &mut Rng, thorough: bool) {
                     }
                     if crate::ops_engine::differ(&bt.text, &btn.text) {
                         rep.violation("impl-vs-impl:C03", format!("optimized [{}] vs no_opt [{}]", bt.text, btn.text), label.clone());
+                    }
+                }
+            }
+        }
+    }
+}
+
+/// C01 / C02: size boundaries. (1) Haystacks around 2^16 and 2^18 characters with closed-form expected
+/// matches for lazy and greedy one-character loops, literal search and look-behind; (2) quantifier
+/// bounds around 2^16, 2^31, 2^32 and 2^64 on loops that are not unrolled; (3) a first element nested
+/// 99..255 deep. Both executors, optimized and not, must give the expected / the same answer.
+pub fn size_scope(rep: &mut Report, focus: &str) {
+    // (1) long haystacks
+    for n in [65535usize, 65536, 65537, 262143, 262144, 262145, 300000] {
+        let hay = format!("a{}b", "x".repeat(n));
+        let cases: Vec<(&str, &str, Option<(usize, usize)>)> = vec![
+            ("a.*?b", "", Some((0, n + 2))),
+            ("a.*b", "", Some((0, n + 2))),
+            ("a[^b]*?b", "", Some((0, n + 2))),
+            ("ax+?b", "", Some((0, n + 2))),
+            ("x{3,}?b", "", Some((1, n + 2))),
+            ("(?<=a.*?)b", "s", Some((n + 1, n + 2))),
+            ("a.{0,5}?b", "", None),
+            ("xb", "", Some((n, n + 2))),
+            ("a(?:x)*?b", "", Some((0, n + 2))),
+        ];
+        for (pat, fs, want) in cases {
+            for no_opt in [false, true] {
+                let Ok(re) = compile(pat, fs, no_opt) else { continue };
+                for exec in [Exec::Bt, Exec::Pk] {
+                    regress::verif::fuel::reset(50_000_000);
+                    let got = guarded(std::panic::AssertUnwindSafe(|| find_all(&re, exec, &hay, 0, 1).0.first().map(|m| (m.range.start, m.range.end))));
+                    let (_, _, ex) = regress::verif::fuel::report();
+                    regress::verif::fuel::reset(u64::MAX);
+                    rep.case(&format!("/{}/{} on a x^{} b {:?} no_opt={}", pat, fs, n, exec, no_opt), true);
+                    rep.count("size:long-haystack");
+                    if ex {
+                        continue;
+                    }
+                    match got {
+                        Err(m) => rep.violation("panic:C06", format!("search panicked: {}", m), format!("/{}/{} on \"a\" + \"x\"*{} + \"b\"", pat, fs, n)),
+                        Ok(g) => {
+                            if g != want {
+                                let tag = if focus == "C02" { "impl-vs-impl:C02" } else { "impl-vs-spec:C01" };
+                                rep.violation(tag, format!("{} (no_opt={}) finds {:?}, expected {:?}", exec.name(), no_opt, g, want), format!("/{}/{} on \"a\" + \"x\"*{} + \"b\"", pat, fs, n));
+                            }
+                        }
+                    }
+                }
+            }
+        }
+    }
+    // (2) large quantifier bounds
+    let bounds: [(u128, u128); 9] = [
+        (0, 65535), (0, 65536), (0, 1 << 31), (0, 1 << 32), (2, (1 << 32) + 2), (1, (1 << 32) + 1), (0, (1 << 63)), (0, u64::MAX as u128), (0, (u64::MAX as u128) + 5),
+    ];
+    for body in ["(?:ab)", "(a)", "(?:a|b)", "(a|bc)", "a"] {
+        for (m, n) in bounds {
+            for lazy in ["", "?"] {
+                for tail in ["", "$", "c"] {
+                    let pat = format!("x{}{{{},{}}}{}{}", body, m, n, lazy, tail);
+                    let (Ok(opt), Ok(noopt)) = (compile(&pat, "", false), compile(&pat, "", true)) else { continue };
+                    for h in ["xababab", "xabc", "x", "xaaaa", "xbcac", ""] {
+                        let label = format!("/{}/ on {:?} from 0", pat, h);
+                        let bt = run_exec(&opt, Exec::Bt, h, 0, 8);
+                        let pk = run_exec(&opt, Exec::Pk, h, 0, 8);
+                        let btn = run_exec(&noopt, Exec::Bt, h, 0, 8);
+                        rep.case(&label, !bt.text.is_empty());
+                        rep.count("size:big-bounds");
+                        if crate::ops_engine::differ(&bt.text, &pk.text) {
+                            rep.violation("impl-vs-impl:C02", format!("backtracking [{}] vs PikeVM [{}]", bt.text, pk.text), label.clone());
+                        }
+                        if crate::ops_engine::differ(&bt.text, &btn.text) {
+                            rep.violation("impl-vs-impl:C03", format!("optimized [{}] vs no_opt [{}]", bt.text, btn.text), label.clone());
+                        }
+                    }
+                }
+            }
+        }
+    }
+}
+
+/// C04: a first element nested 99..255 levels deep (capture groups, non-capturing groups, quantified
+/// groups): the start predicate must still be sound.
+pub fn deep_first_scope(rep: &mut Report) {
+    for d in [1usize, 50, 99, 100, 101, 150, 254] {
+        for (open, close) in [("(", ")"), ("(?:", ")"), ("(?:", ")+"), ("(", "){1,2}")] {
+            for (inner, tail) in [("a", "b"), ("a", ""), ("[ab]", "c"), ("a|b", "c")] {
+                let pat = format!("{}{}{}{}", open.repeat(d), inner, close.repeat(d), tail);
+                let Ok(re) = compile(&pat, "", false) else {
+                    rep.count("deepfirst:rejected");
+                    continue;
+                };
+                let mut arb = re.clone();
+                regress::verif::set_start_pred_arbitrary(&mut arb);
+                let pred = regress::verif::dump_program(&re).lines().nth(1).unwrap_or("").split(' ').nth(1).unwrap_or("").to_string();
+                for h in ["ab", "xab", "b", "ac", "bc", "xxbc", "c", ""] {
+                    let label = format!("/{}…{}… depth {}/ on {:?}", open, inner, d, h);
+                    let bt = run_exec(&re, Exec::Bt, h, 0, 8);
+                    let a = run_exec(&arb, Exec::Bt, h, 0, 8);
+                    let pk = run_exec(&re, Exec::Pk, h, 0, 8);
+                    rep.case(&label, !bt.text.is_empty());
+                    rep.count("deepfirst");
+                    if crate::ops_engine::differ(&bt.text, &a.text) {
+                        rep.violation("impl-vs-impl:C04", format!("with prefilter ({}) [{}] vs Arbitrary [{}]", pred, bt.text, a.text), format!("/{}/ on {:?}", pat, h));
+                    }
+                    if crate::ops_engine::differ(&bt.text, &pk.text) {
+                        rep.violation("impl-vs-impl:C04", format!("backtracking with prefilter ({}) [{}] vs PikeVM [{}]", pred, bt.text, pk.text), format!("/{}/ on {:?}", pat, h));
                     }
                 }
             }
